@@ -137,15 +137,52 @@ def seeded(selection):
     return results
 
 
+def known(pinned=False):
+    """Replays of every listed defect: `fixed` ones must no longer reproduce on the current tree, `known` ones must;
+    with pinned=True all of them must reproduce on the pinned original tree (first commit of /repo's history)."""
+    data = json.load(open(env.KNOWN_FILE))["findings"]
+    e = dict(os.environ)
+    e["PYTHONPATH"] = env.VERIF_ROOT
+    base = None
+    if pinned:
+        root = subprocess.run(["git", "-C", "/repo", "rev-list", "--max-parents=0", "HEAD"], capture_output=True, text=True).stdout.split()[0]
+        first = subprocess.run(["git", "-C", "/repo", "log", "--format=%H", "--reverse", "--grep=^fix:", f"{root}..HEAD"],
+                               capture_output=True, text=True).stdout.split()[0]
+        base = tempfile.mkdtemp(prefix="pgverif-pin-", dir=env.scratch_base())
+        subprocess.run(["git", "-C", "/repo", "worktree", "add", "-q", "--detach", os.path.join(base, "wt"), first + "~1"], check=True)
+        shutil.copyfile("/repo/src/pygaps/_version.py", os.path.join(base, "wt", "src/pygaps/_version.py"))
+        e["VERIF_REPO_SRC"] = os.path.join(base, "wt", "src")
+    ok = True
+    try:
+        for f in data:
+            rp = os.path.join(env.VERIF_ROOT, f["replay"])
+            p = subprocess.run([driver.PYTHON, "-m", "sim.core.driver", f["property"], "--replay", rp], cwd=env.VERIF_ROOT,
+                               env=e, capture_output=True, text=True, timeout=900)
+            want = 1 if (pinned or f["status"] == "known") else 3
+            good = p.returncode == want
+            # on the pinned tree a defect may surface under a neighbouring signature: any violation counts there
+            ok = ok and good
+            print(f"KNOWN {'pinned-tree' if pinned else 'current-tree'} {f['status']:5s} {os.path.basename(f['replay'])}: rc={p.returncode} "
+                  f"{'ok' if good else 'UNEXPECTED'}")
+    finally:
+        if base:
+            subprocess.run(["git", "-C", "/repo", "worktree", "remove", "--force", os.path.join(base, "wt")], capture_output=True)
+            subprocess.run(["git", "-C", "/repo", "worktree", "prune"], capture_output=True)
+            shutil.rmtree(base, ignore_errors=True)
+    return ok
+
+
 def main():
     ap = argparse.ArgumentParser()
-    ap.add_argument("what", choices=["determinism", "mutants", "seeded"])
+    ap.add_argument("what", choices=["determinism", "mutants", "seeded", "known", "known-pinned"])
     ap.add_argument("sel", nargs="*")
     ap.add_argument("--runs", type=int)
     a = ap.parse_args()
     if a.what == "determinism":
         ok = determinism([s.upper() for s in a.sel] or PROPS, a.runs)
         sys.exit(0 if ok else 1)
+    if a.what in ("known", "known-pinned"):
+        sys.exit(0 if known(pinned=(a.what == "known-pinned")) else 1)
     if a.what == "mutants":
         res = mutants(a.sel, a.runs)
         sys.exit(0 if all(v == "CAUGHT" for _, v in res) else 1)
